@@ -356,7 +356,7 @@ Section Roundtrip.
   Variable clean : json -> Prop.                (* values on which the JSON text layer is faithful *)
   Hypothesis std_faithful : forall j, clean j -> parse_std (render j) = PTree j.
   Hypothesis jsi_faithful : forall j, clean j -> parse_jsi (render j) = PTree j.
-  Hypothesis render_nonempty : forall j, is_empty (render j) = false.
+  Hypothesis render_nonempty : forall j, clean j -> is_empty (render j) = false.
 
   Lemma if_query_nonempty (q : bytes) : (if false || negb (is_empty q) then q else []) = q.
   Proof. destruct q; reflexivity. Qed.
@@ -373,7 +373,7 @@ Section Roundtrip.
              | |- context [bytes_eqb ?a ?b] =>
                  first [ change (bytes_eqb a b) with true | change (bytes_eqb a b) with false ]; cbn match
              end;
-      unfold url_param_map; rewrite ?render_nonempty; cbn [is_empty];
+      unfold url_param_map; rewrite ?(render_nonempty (JObj m) (C _ (or_introl eq_refl))); cbn [is_empty];
       rewrite ?(std_faithful (JObj m) (C _ (or_introl eq_refl))); cbn [unmarshal_map];
       rewrite ?(set_map_wf m W); reflexivity.
   Qed.
@@ -458,7 +458,7 @@ Section PipelineProofs.
   Variable clean : json -> Prop.
   Hypothesis std_faithful : forall j, clean j -> parse_std (render j) = PTree j.
   Hypothesis jsi_faithful : forall j, clean j -> parse_jsi (render j) = PTree j.
-  Hypothesis render_nonempty : forall j, is_empty (render j) = false.
+  Hypothesis render_nonempty : forall j, clean j -> is_empty (render j) = false.
   (** C18: without a persistedQuery extension the wrapper is the identity; and it only uses its
       argument by calling it *)
   Hypothesis pq_no_ext : forall ex r, r_ext r = None -> pq_ext ex r = ex r.
